@@ -8,6 +8,7 @@
 //! verif hook is taken after every first poll.
 //! trace = [repro; per request 14 ints; n_draws; draw bits...]  (records and draws of instance A)
 //!   repro = 1 iff A and B produced identical records and identical draw logs
+//!   (A uses one service handle for all requests, B a fresh clone of its handle per request)
 //!   request record = [n_log; k0; k1; k2 (logged kinds, -1 padding); listener events error, latency, pass
 //!                     (counts); reported delay ms (-1); inner_called; t_issue; t_inner (-1); res_kind
 //!                     (0 Ok, 1 Err, -1 pending at the end); res_val; t_done (-1)]
@@ -35,6 +36,7 @@ struct Inst {
     futs: Vec<Manual<Res>>,
     recs: Vec<Vec<i128>>,
     draws: Vec<u64>,
+    via_clone: bool,
 }
 
 fn now_ms(t0: tokio::time::Instant) -> i128 {
@@ -72,7 +74,7 @@ fn build(s: &[i128], t0: tokio::time::Instant) -> Inst {
             b.error_fn(|r: &i128| *r + 7000).error_rate(er).build().layer(inner),
         )
     };
-    Inst { svc, logs, futs: Vec::new(), recs: Vec::new(), draws: Vec::new() }
+    Inst { svc, logs, futs: Vec::new(), recs: Vec::new(), draws: Vec::new(), via_clone: false }
 }
 
 impl Inst {
@@ -82,8 +84,16 @@ impl Inst {
         let e0 = *self.logs.ev_err.lock().unwrap();
         let l0 = self.logs.ev_lat.lock().unwrap().len();
         let p0 = *self.logs.ev_pass.lock().unwrap();
-        futures::future::poll_fn(|cx| self.svc.poll_ready(cx)).await.ok();
-        let mut m = Manual::new(self.svc.call(i as i128));
+        // instance B sends every request through a fresh clone of its handle: the decisions must be a
+        // function of the seed and the order of requests only, not of which clone carries a request
+        let mut m = if self.via_clone {
+            let mut c = self.svc.clone();
+            futures::future::poll_fn(|cx| c.poll_ready(cx)).await.ok();
+            Manual::new(c.call(i as i128))
+        } else {
+            futures::future::poll_fn(|cx| self.svc.poll_ready(cx)).await.ok();
+            Manual::new(self.svc.call(i as i128))
+        };
         let t_issue = now_ms(t0);
         m.poll();
         let d = take_draws();
@@ -130,6 +140,7 @@ fn run(s: &[i128]) -> Vec<i128> {
         let _ = take_draws();
         let mut a = build(s, t0);
         let mut b = build(s, t0);
+        b.via_clone = true;
         let mut da = vec![-1i128; n];
         let mut db = vec![-1i128; n];
         for i in 0..n {
